@@ -133,7 +133,8 @@ func (e *avg) save(b []byte, count float64, total float64) []byte {
 }
 
 func (e *avg) IsConstant() bool {
-	return e.Value.IsConstant()
+	// Like other aggregates, avg always reads its accumulated state
+	return false
 }
 
 func (e *avg) DeAggregate() Expr {
